@@ -108,6 +108,7 @@ let register_c06 reg =
     | [tab; bodies] -> let (es, fs) = worker_obs (tab_of tab) (L.map acts_of (lv bodies)) in
       "ok [" ^ show_zlist es ^ "," ^ show_bools fs ^ "]"
     | _ -> failwith "worker_obs: arity");
+  reg "measured_ok" (function [a; b; c] -> show_bool (measured_ok (zv a) (zv b) (zv c)) | _ -> failwith "arity");
   reg "run_obs" (function
     | [tab; setup] -> let ((es, it), f) = run_obs (tab_of tab) (acts_of setup) in
       "ok [" ^ show_zlist es ^ "," ^ show_bool it ^ "," ^ show_bool f ^ "]"
@@ -178,7 +179,8 @@ let register_c14 reg =
   reg "fuzz_crashes" (function [n] -> show_bool (z_to_int (zv n) = 0) | _ -> failwith "arity")
 let () = section register_c14
 let register_c15 reg =
-  reg "c15_run_ok" (function [a; b; c; d; e] -> show_bool (c15_run_ok (zv a) (zv b) (zv c) (zv d) (zv e)) | _ -> failwith "arity")
+  reg "c15_run_ok" (function [a; b; c; d; e] -> show_bool (c15_run_ok (zv a) (zv b) (zv c) (zv d) (zv e)) | _ -> failwith "arity");
+  reg "c15_trigger_ok" (function [d; t; k] -> show_bool (c15_trigger_ok (zlist d) (zv t) (zv k)) | _ -> failwith "arity")
 let () = section register_c15
 
 (* ---- C19 *)
@@ -239,7 +241,7 @@ let () = section register_c11
 
 (* ---- C18 *)
 let vev_of = function
-  | L [I t] -> (match z_to_int t with 0 -> VStart | 2 -> VFnEnd | 3 -> VRestart | 4 -> VStopCalled | 5 -> VStopReturned | 6 -> VCancel | _ -> failwith "vev")
+  | L [I t] -> (match z_to_int t with 0 -> VStart | 2 -> VFnEnd | 3 -> VRestart | 4 -> VStopCalled | 5 -> VStopReturned | 6 -> VCancel | 7 -> VFirst | 8 -> VNext | _ -> failwith "vev")
   | L [I t; k] when z_to_int t = 1 -> VFnStart (zv k)
   | _ -> failwith "vev"
 let register_c18 reg =
